@@ -20,6 +20,10 @@ fn main() {
     if args.len() < 2 {
         usage();
     }
+    // replay aid: VERIF_TRACE=<filter> prints the tracing output of the code under test to stderr
+    if let Ok(f) = std::env::var("VERIF_TRACE") {
+        let _ = tracing_subscriber::fmt().with_env_filter(tracing_subscriber::EnvFilter::new(f)).with_writer(std::io::stderr).try_init();
+    }
     let prop = args[0].to_uppercase();
     let tier = match args[1].as_str() {
         "quick" => Tier::Quick,
